@@ -1,8 +1,180 @@
-/- Model driver for C07 (stub: no ops yet). -/
+/-
+  Model driver for C07 (line protocol).  A Python value travels in prefix notation, one token
+  per node:  N | T | F | i<int> | f<16 hex digits of the IEEE bits> | s<hex of the UTF-8 bytes> |
+  L<n> v1..vn | U<n> v1..vn (tuple) | D<n> k1 v1 .. kn vn  (keys are `s…` or `i…` tokens).
+
+  ops:
+    rt <Class> <value>      -> `ok <value>` : to_dict of the object that from_dict builds from
+                               <value> (model: enc (dec v)), or `err` when from_dict raises
+    json <value>            -> `ok <value>` : json.loads(json.dumps(value))
+    ap_str / ap_parse / ap_copy, loc_copy, spaced, titlekey : text forms and copies
+-/
 import Ladybug.DrvCore
+import Ladybug.Model.Serial.Coll
 
 namespace DrvC07
-def handle (_toks : List String) : String := "bad-op"
+open Codec Cal
+
+/-- the token without its one-character tag -/
+def tl (t : String) : String := String.ofList (t.toList.drop 1)
+
+def hexByte (n : Nat) : String := Drv.hexOfNat n 2
+
+def strToHex (s : String) : String :=
+  s.toUTF8.foldl (fun acc b => acc ++ hexByte b.toNat) ""
+
+def hexToStr? (h : String) : Option String :=
+  let cs := h.toList
+  let rec go : List Char → ByteArray → Option ByteArray
+    | [], acc => some acc
+    | a :: b :: r, acc => do
+      let x ← Drv.hexDigit? a
+      let y ← Drv.hexDigit? b
+      go r (acc.push (UInt8.ofNat (x * 16 + y)))
+    | _, _ => none
+  match go cs ByteArray.empty with
+  | some ba => String.fromUTF8? ba
+  | none => none
+
+def parseKey (t : String) : Option Key :=
+  if t.startsWith "s" then (hexToStr? (tl t)).map Key.str
+  else if t.startsWith "i" then (tl t).toInt?.map Key.int
+  else none
+
+mutual
+partial def parseVal : List String → Option (PyVal × List String)
+  | [] => none
+  | t :: r =>
+    if t = "N" then some (.none, r)
+    else if t = "T" then some (.bool true, r)
+    else if t = "F" then some (.bool false, r)
+    else if t.startsWith "i" then (tl t).toInt?.map (fun i => (.int i, r))
+    else if t.startsWith "f" then (Drv.hex? (tl t)).map (fun b => (.flt b, r))
+    else if t.startsWith "s" then (hexToStr? (tl t)).map (fun s => (.str s, r))
+    else if t.startsWith "L" then do
+      let n ← (tl t).toNat?
+      let (l, r') ← parseN n r
+      pure (.list l, r')
+    else if t.startsWith "U" then do
+      let n ← (tl t).toNat?
+      let (l, r') ← parseN n r
+      pure (.tuple l, r')
+    else if t.startsWith "D" then do
+      let n ← (tl t).toNat?
+      let (l, r') ← parseKV n r
+      pure (.dict l, r')
+    else none
+partial def parseN : Nat → List String → Option (List PyVal × List String)
+  | 0, r => some ([], r)
+  | n + 1, r => do
+    let (v, r1) ← parseVal r
+    let (vs, r2) ← parseN n r1
+    pure (v :: vs, r2)
+partial def parseKV : Nat → List String → Option (List (Key × PyVal) × List String)
+  | 0, r => some ([], r)
+  | n + 1, r => do
+    match r with
+    | [] => none
+    | kt :: r0 =>
+      let k ← parseKey kt
+      let (v, r1) ← parseVal r0
+      let (vs, r2) ← parseKV n r1
+      pure ((k, v) :: vs, r2)
+end
+
+def showKey : Key → String
+  | .str s => "s" ++ strToHex s
+  | .int i => "i" ++ toString i
+
+mutual
+partial def showVal : PyVal → String
+  | .none => "N"
+  | .bool true => "T"
+  | .bool false => "F"
+  | .int i => "i" ++ toString i
+  | .flt b => "f" ++ Drv.hexOfNat b 16
+  | .str s => "s" ++ strToHex s
+  | .list l => Drv.joinSp (("L" ++ toString l.length) :: l.map showVal)
+  | .tuple l => Drv.joinSp (("U" ++ toString l.length) :: l.map showVal)
+  | .dict kv => Drv.joinSp (("D" ++ toString kv.length) ::
+      kv.map (fun p => showKey p.1 ++ " " ++ showVal p.2))
+end
+
+def whole (toks : List String) : Option PyVal :=
+  match parseVal toks with
+  | some (v, []) => some v
+  | _ => none
+
+def okv (o : Option PyVal) : String :=
+  match o with
+  | some v => "ok " ++ showVal v
+  | none => "err"
+
+def rt (cls : String) (v : PyVal) : String :=
+  match cls with
+  | "DateTime" => okv ((DTc.rd.dec v).map DTc.enc)
+  | "Date" => okv ((Dc.rd.dec v).map Dc.enc)
+  | "Time" => okv ((Tc.rd.dec v).map Tc.enc)
+  | "AnalysisPeriod" => okv ((AP.rd.dec v).map AP.enc)
+  | "Location" => okv ((Loc.rd.dec v).map Loc.enc)
+  | "Color" => okv ((Col.rd.dec v).map Col.enc)
+  | "DataType" => okv ((DType.rd.dec v).map DType.enc)
+  | "Header" => okv ((Hdr.rd.dec v).map Hdr.enc)
+  | "HourlyDiscontinuous" => okv (((Coll.rd .hourlyDisc false).dec v).map Coll.enc)
+  | "HourlyContinuous" => okv (((Coll.rd .hourlyCont false).dec v).map Coll.enc)
+  | "Daily" => okv (((Coll.rd .daily false).dec v).map Coll.enc)
+  | "Monthly" => okv (((Coll.rd .monthly false).dec v).map Coll.enc)
+  | "MonthlyPerHour" => okv (((Coll.rd .mph false).dec v).map Coll.enc)
+  | "HourlyDiscontinuous_imm" => okv (((Coll.rd .hourlyDisc true).dec v).map Coll.enc)
+  | "HourlyContinuous_imm" => okv (((Coll.rd .hourlyCont true).dec v).map Coll.enc)
+  | "Daily_imm" => okv (((Coll.rd .daily true).dec v).map Coll.enc)
+  | "Monthly_imm" => okv (((Coll.rd .monthly true).dec v).map Coll.enc)
+  | "MonthlyPerHour_imm" => okv (((Coll.rd .mph true).dec v).map Coll.enc)
+  | _ => "bad-op"
+
+def apOfNats : List Nat → Option AP
+  | [a, b, c, d, e, f, g, l] => some ⟨a, b, c, d, e, f, g, l != 0⟩
+  | _ => none
+
+def showAP (a : AP) : String :=
+  "ok " ++ Drv.showNats [a.stM, a.stD, a.stH, a.endM, a.endD, a.endH, a.ts, if a.leap then 1 else 0]
+
+def handle (toks : List String) : String :=
+  match toks with
+  | "rt" :: cls :: rest =>
+    match whole rest with
+    | some v => rt cls v
+    | none => "bad-op"
+  | "json" :: rest =>
+    match whole rest with
+    | some v => "ok " ++ showVal (jsonRT v)
+    | none => "bad-op"
+  | "ap_str" :: rest =>
+    match (Drv.nats rest).bind apOfNats with
+    | some a => "ok s" ++ strToHex a.str
+    | none => "bad-op"
+  | "ap_copy" :: rest =>
+    match (Drv.nats rest).bind apOfNats with
+    | some a => (match a.copy with | some b => showAP b | none => "err")
+    | none => "bad-op"
+  | ["ap_parse", h] =>
+    match hexToStr? h with
+    | some s => (match AP.parse s with | some b => showAP b | none => "err")
+    | none => "bad-op"
+  | "loc_copy" :: rest =>
+    match whole rest with
+    | some v => okv (((Loc.rd.dec v).bind Loc.copy).map Loc.enc)
+    | none => "bad-op"
+  | ["spaced", h] =>
+    match hexToStr? h with
+    | some s => "ok s" ++ strToHex (spaced s)
+    | none => "bad-op"
+  | ["titlekey", h] =>
+    match hexToStr? h with
+    | some s => "ok s" ++ strToHex (titleKey s)
+    | none => "bad-op"
+  | _ => "bad-op"
+
 end DrvC07
 
 def main : IO Unit := Drv.run DrvC07.handle
